@@ -83,6 +83,9 @@ def _case(draw, tier):
         "lead": draw(st.lists(st.integers(1, 3), max_size=2)),
         "threads": draw(st.sampled_from([1, 2, 4, 16])),
         "via": draw(st.sampled_from(["grid", "uxda"])),
+        # radius of the sphere the source's Cartesian coordinates lie on (MPAS: sphere_radius; topology arrays: node_x/y/z
+        # supplied next to lon/lat); None = lon/lat only (topology) / unit sphere (MPAS)
+        "radius": draw(st.sampled_from([None, None, None, 2.5, 6371229.0])),
     }
     if planted_box:
         case["lon0"], case["lon_w"], case["lat0"], case["lat_h"] = planted_box
@@ -95,7 +98,7 @@ def strategy(tier, excl):
 
 
 def classify(case):
-    labs = ["sel:" + case["sel"], "source:" + case["source"], f"materialised:{len(case['materialise'])}", "data:" + str(case["data"]), f"threads:{case['threads']}"]
+    labs = ["sel:" + case["sel"], "source:" + case["source"], "cartesian-radius:" + str(case.get("radius")), f"materialised:{len(case['materialise'])}", "data:" + str(case["data"]), f"threads:{case['threads']}"]
     if case["sel"] in ("bbox", "circle", "nn"):
         labs.append("element:" + case["element"])
     if case["sel"].startswith("isel"):
@@ -119,9 +122,9 @@ def _box(case):
 def _src_grid(case):
     ux = build.ux()
     if case["source"] == "mpas":
-        ds, _ = writers.mpas_dataset(case["mesh"])
+        ds, _ = writers.mpas_dataset(case["mesh"], radius=case.get("radius") or 1.0)
         return ux.open_grid(ds)
-    return build.grid_from_mesh(case["mesh"])
+    return build.grid_from_mesh(case["mesh"], **(build.cartesian_kw(case["mesh"], case["radius"]) if case.get("radius") else {}))
 
 
 def _edge_pairs(g):
@@ -143,7 +146,7 @@ def run_case(case, ctx):
         getattr(g, q)
     sel = case["sel"]
     hist = "after-materialise" if case["materialise"] else "pristine"
-    site = f"{sel}:{case['source']}:{hist}"
+    site = f"{sel}:{case['source']}{':cartesian-radius' if case.get('radius') else ''}:{hist}"
 
     def bad(oracle, kind, detail, s=None):
         fails.append(Failure(oracle, s or site, kind, detail))
@@ -285,12 +288,15 @@ def run_case(case, ctx):
         # sides are decided on the latitudes themselves: a node whose latitude equals the requested one
         # (the same double) lies on the parallel, i.e. on neither side; a node within 1e-9 deg of it
         # without being equal is ambiguous
+        # (when the source's Cartesian coordinates lie on a sphere of another radius, the node's height has to be
+        # divided by that radius first, and an exact tie is ambiguous too)
         nlat = [float(p[1]) for p in mesh["nodes"]]
+        tie_amb = case.get("radius") not in (None, 1.0)
         must = set()
         for fi, f in enumerate(faces):
             for a, b in refmodel.face_edges(f):
                 da, db = nlat[a] - lat, nlat[b] - lat
-                amb = (da != 0.0 and abs(da) < 1e-9) or (db != 0.0 and abs(db) < 1e-9)
+                amb = ((da != 0.0 or tie_amb) and abs(da) < 1e-9) or ((db != 0.0 or tie_amb) and abs(db) < 1e-9)
                 if amb:
                     may.add(fi)
                 elif da * db < 0:
@@ -419,7 +425,10 @@ def run_case(case, ctx):
     # ---- fully functional: every derived quantity agrees with a fresh grid of the same faces
     ctx.ev("fully_functional")
     rfaces = [[int(j) for j in row if j != FILL] for row in conn]
-    twin = build.grid_from_mesh({"nodes": [[float(a), float(b)] for a, b in zip(rlon, rlat)], "faces": rfaces})
+    tmesh = {"nodes": [[float(a), float(b)] for a, b in zip(rlon, rlat)], "faces": rfaces}
+    R = float(case.get("radius") or 1.0)
+    # the fresh grid carries its Cartesian coordinates on the same sphere as the source
+    twin = build.grid_from_mesh(tmesh, **(build.cartesian_kw(tmesh, R) if case.get("radius") else {}))
     f_site = site
 
     def pairs(gr):
@@ -470,9 +479,11 @@ def run_case(case, ctx):
         if hr != ht:
             bad("fully_functional", "hole_edge_indices", f"boundary edges of the result {hr[:6]}... ({len(hr)}) vs a fresh grid's {ht[:6]}... ({len(ht)})", f_site)
             return fails
-        dr = {rp[e]: float(v) for e, v in enumerate(np.asarray(res.edge_node_distances.values, float))}
+        # (an MPAS-like source ships dvEdge in its own length unit, which the subset keeps: compared as angles)
+        unit = R if case["source"] == "mpas" else 1.0
+        dr = {rp[e]: float(v) / unit for e, v in enumerate(np.asarray(res.edge_node_distances.values, float))}
         dt = {tp[e]: float(v) for e, v in enumerate(np.asarray(twin.edge_node_distances.values, float))}
-        if set(dr) != set(dt) or any(abs(dr[k] - dt[k]) > 1e-12 for k in dr):
+        if set(dr) != set(dt) or any(abs(dr[k] - dt[k]) > 1e-12 + (1e-9 * dt[k] if unit != 1.0 else 0.0) for k in dr):
             bad("fully_functional", "edge_node_distances", "edge_node_distances differ from a fresh grid's", f_site)
             return fails
         if sorted(int(i) for i in np.atleast_1d(res.antimeridian_face_indices)) != sorted(int(i) for i in np.atleast_1d(twin.antimeridian_face_indices)):
@@ -482,7 +493,7 @@ def run_case(case, ctx):
             bad("fully_functional", "n_nodes_per_face", f"{np.asarray(res.n_nodes_per_face.values)} vs {np.asarray(twin.n_nodes_per_face.values)}", f_site)
             return fails
         for nm in ("node_x", "node_y", "node_z"):
-            if not np.allclose(np.asarray(getattr(res, nm).values, float), np.asarray(getattr(twin, nm).values, float), atol=1e-12):
+            if not np.allclose(np.asarray(getattr(res, nm).values, float), np.asarray(getattr(twin, nm).values, float), rtol=0.0, atol=1e-12 * max(1.0, R)):
                 bad("fully_functional", nm, "Cartesian node coordinates differ from a fresh grid's", f_site)
                 return fails
         if case["source"] != "mpas":
